@@ -338,6 +338,39 @@ pub fn run(ctx: &Ctx) {
     if !res.complete {
         ctx.set("exhaustive", json!(false));
     }
+    // 5b. attribute-heavy documents (two element names, attributes, up to seven tags/attributes):
+    // one value everywhere versus a different value at every site
+    let attr_space = Space::new(SpaceCfg {
+        root: "r".into(),
+        enames: vec!["a".into(), "b".into()],
+        anames: vec!["x".into(), "y".into()],
+        attr_seq: false,
+        max_attrs: 2,
+        depth: 2,
+        kinds: vec![],
+        both_empty: false,
+        root_attrs: false,
+        max_weight: ctx.tier.pick(7, 8),
+    });
+    let res = par_for(
+        attr_space.len(),
+        ctx.threads,
+        64,
+        Some(ctx.deadline),
+        |_| 0u64,
+        |acc, i| {
+            let n = attr_space.get(i);
+            let mut d = n.clone();
+            let mut counter = 0usize;
+            crate::docspace::decorate(&mut d, &mut counter);
+            *acc += cmp.same("values", &[xml(&n)], &[xml(&d)], i, json!(null));
+        },
+    );
+    evals += res.accs.iter().sum::<u64>();
+    ctx.set("attribute_heavy_documents", json!({"space": attr_space.cfg.describe(), "size": attr_space.len(), "visited": res.processed}));
+    if !res.complete {
+        ctx.set("exhaustive", json!(false));
+    }
     // 6. reader behaviour (short reads, Interrupted) explored with the choice engine
     let sp2 = Space::new(full_cfg(3));
     let bound = ctx.tier.pick(2, 3);
